@@ -266,7 +266,7 @@ fn fixture(n: usize, shape: usize) -> Arc<AggFixture> {
     let cells = CELLS.get_or_init(|| (0..6).map(|_| Mutex::new(None)).collect());
     let mut g = cells[(n - 1) * 2 + shape].lock().unwrap();
     if g.is_none() {
-        *g = Some(Arc::new(AggFixture::build(n, shape)));
+        *g = Some(crate::core::runner::on_fresh_thread(move || Arc::new(AggFixture::build(n, shape))));
     }
     g.as_ref().unwrap().clone()
 }
